@@ -62,6 +62,8 @@ def gen(rng, tier, index):
         plan["r"] = rng.uniform(-2, 2, 3).tolist()
         plan["placed"] = bool(rng.random() < 0.6)
         if rng.random() < 0.4:
+            plan["ecc"] = (rng.uniform(-0.15, 0.15, 3) * L * np.array([0.0, 1.0, 1.0])).tolist()
+        if rng.random() < 0.4:
             plan["lead_body"] = {"m": float(rng.uniform(0.5, 2)), "theta": rng.uniform(0.1, 0.5, 3).tolist(), "offset": rng.uniform(-0.5, 0.5, 3).tolist()}
         if kind == "frame":
             plan["tol"] = 1e-10
@@ -147,7 +149,9 @@ def build_cantilever(plan, moved):
     clamp = RigidConnection(frame, rod, xi2=(0,), name="clamp")
     F = R @ np.array(plan["force"])
     Mo = np.array(plan["moment"])
-    force = Force(lambda t, F=F: t * F, rod, (1,), name="tip_force")
+    # the tip force may attack at an eccentric point of the end cross-section (body-fixed offset)
+    ecc = np.array(plan.get("ecc", [0.0, 0.0, 0.0]), dtype=float)
+    force = Force(lambda t, F=F: t * F, rod, (1,), B_r_CP=ecc, name="tip_force")
     moment = B_Moment(lambda t, Mo=Mo: t * Mo, rod, (1,), name="tip_moment")
     if plan.get("lead_body"):
         # another contribution with coordinates is registered before the rod (welded to the support): the rod's
